@@ -317,6 +317,9 @@ def _isinstance(ex, args, kwargs, node):
       res = True
     elif isinstance(v, VObj) and v.cls == n:
       res = True
+    elif isinstance(v, VOpaque) and v.okind == 'Ts' and n.endswith(
+        'Timestamp'):
+      res = True
   if isinstance(v, VOpt):
     ex.unsupported(node, 'isinstance on an Optional value')
   return VBool(res)
@@ -665,8 +668,9 @@ def _l_append(ex, recv, args, kwargs, node):
   if isinstance(x, VObj):
     from mmverif.engine import libcontracts
     xt = libcontracts.item_term(x)
-    if libcontracts.ITEM_HOOKS['reflect'] is not None:
-      libcontracts.ITEM_HOOKS['reflect'](ctx, x, xt)
+    _rf = libcontracts.item_hook(ctx, 'reflect')
+    if _rf is not None:
+      _rf(ctx, x, xt)
   else:
     xt = elem_term(x, recv.esort)
   old_at, n = recv.at, recv.length
